@@ -76,6 +76,12 @@ var lineFaults = []faultKind{
 	{"unknown-function-on-nil-after-newline", "{{ nil\n.nofn(1) }}", true, 1},
 	{"unknown-function-on-object-chain", "{{ {a: {b: 1}}\n.a\n.nofn() }}", true, 2},
 	{"unknown-property-in-chain", "{{ {a: {b: 1}}\n.a\n.c }}", true, 2},
+	// the offending construct is itself a token that spans lines: its last line counts
+	{"mistyped-operand-multiline-string-left", "{{ \"Dear customer,\nyour total is \" + 5 }}", true, 1},
+	{"mistyped-operand-multiline-string-left-3", "{{ 'a\n\nb' - 1 }}", true, 2},
+	{"unknown-operator-multiline-string", "{{ \"x\ny\" * \"z\" }}", true, 1},
+	{"unknown-property-multiline-key", "{{ {a: 1}['first\nsecond'] }}", true, 1},
+	{"unknown-function-on-multiline-string", "{{ \"p\nq\".nofn() }}", true, 1},
 	// an unclosed string runs to the end of the input: its token ends on the line of the last byte
 	{"unclosed-string-to-end-of-input", "{{ \"never closed", false, -1},
 	{"unclosed-single-quoted-string-to-end-of-input", "@if('never closed", false, -1},
@@ -206,9 +212,10 @@ func lineTreeCase(c *core.Ctx, i int) {
 	ext := []string{".tw", ".tw.html", ".html"}[(i/8)%3]
 	dirSpelled := []string{"c13tree", "./c13tree/", "c13tree/nested/views", "x13/../c13tree"}[(i/24)%4]
 	files := map[string]string{
-		"layouts/main.tw":    "<html>\n@reserve(\"title\")\n<body>\n@reserve(\"body\")\n</body>\n",
-		"components/card.tw": "<card>\n{{ t }}\n@slot\n</card>\n",
-		"plain.tw":           "plain page\n",
+		"layouts/main.tw":     "<html>\n@reserve(\"title\")\n<body>\n@reserve(\"body\")\n</body>\n",
+		"components/card.tw":  "<card>\n{{ t }}\n@slot\n</card>\n",
+		"plain.tw":            "plain page\n",
+		"broken/elsewhere.tw": "one\ntwo\n{{ nowhere_defined }}\n",
 	}
 	type variant struct {
 		name    string
@@ -329,6 +336,18 @@ func lineTreeCase(c *core.Ctx, i int) {
 	}
 	if tpl == nil {
 		return
+	}
+	// other pages of the same loaded tree are rendered first (successfully, and one failing on its own line)
+	if i%2 == 1 {
+		for _, other := range []string{"plain", "broken/elsewhere", "plain"}[:1+r.Intn(3)] {
+			o, ofe := renderPage(c, tpl, other, nil)
+			if other == "broken/elsewhere" && !o.Panicked {
+				wantOther, _ := filepath.Abs(filepath.Join(filepath.Clean(dir), other+ext))
+				if ofe == nil || int(ofe.Line()) != 3 || ofe.Filepath() != wantOther {
+					c.Violation("tree-path:other-page", fmt.Sprintf("the fault on line 3 of %s was reported as %v", wantOther, ofe), desc)
+				}
+			}
+		}
 	}
 	got, fe := renderPage(c, tpl, v.render, nil)
 	if got.Panicked {
